@@ -375,20 +375,53 @@ impl<T: Into<J>> From<Vec<T>> for J {
     }
 }
 
+/// Hex rendering; a run of 32 or more equal bytes is written `(xx*N)` so that replay files
+/// of very long deliveries stay readable.
 pub fn hex(b: &[u8]) -> String {
-    let mut s = String::with_capacity(b.len() * 2);
-    for x in b {
-        let _ = write!(s, "{x:02x}");
+    let mut s = String::with_capacity(b.len().min(4096) * 2);
+    let mut i = 0;
+    while i < b.len() {
+        let mut j = i + 1;
+        while j < b.len() && b[j] == b[i] {
+            j += 1;
+        }
+        if j - i >= 32 {
+            let _ = write!(s, "({:02x}*{})", b[i], j - i);
+        } else {
+            for x in &b[i..j] {
+                let _ = write!(s, "{x:02x}");
+            }
+        }
+        i = j;
     }
     s
 }
 
 pub fn unhex(s: &str) -> Result<Vec<u8>, String> {
-    let s = s.trim();
-    if s.len() % 2 != 0 {
-        return Err("odd hex length".into());
+    let s = s.trim().as_bytes();
+    let mut out = Vec::new();
+    let mut i = 0;
+    let byte = |s: &[u8], i: usize| -> Result<u8, String> {
+        let t = std::str::from_utf8(s.get(i..i + 2).ok_or("odd hex length")?).map_err(|e| e.to_string())?;
+        u8::from_str_radix(t, 16).map_err(|e| e.to_string())
+    };
+    while i < s.len() {
+        if s[i] == b'(' {
+            let v = byte(s, i + 1)?;
+            if s.get(i + 3) != Some(&b'*') {
+                return Err("bad run in hex string".into());
+            }
+            let close = s[i..].iter().position(|c| *c == b')').ok_or("unterminated run in hex string")? + i;
+            let n: usize = std::str::from_utf8(&s[i + 4..close]).map_err(|e| e.to_string())?.parse().map_err(|_| "bad run length in hex string".to_string())?;
+            if n > 1 << 26 {
+                return Err("run too long in hex string".into());
+            }
+            out.resize(out.len() + n, v);
+            i = close + 1;
+        } else {
+            out.push(byte(s, i)?);
+            i += 2;
+        }
     }
-    (0..s.len() / 2)
-        .map(|i| u8::from_str_radix(&s[2 * i..2 * i + 2], 16).map_err(|e| e.to_string()))
-        .collect()
+    Ok(out)
 }
